@@ -208,12 +208,12 @@ def make_object(c: Ctx, t: str, p=0.5):
                 if dom == 'TIME' and 'maximum' in attrs and 'minimum' in attrs:
                     pass
                 v = _value_of(attrs[k])
-                if dom is not None and dom != 'TIME' and isinstance(v, dict):
+                if dom is not None and dom != 'TIME' and isinstance(v, (dict, str)):
                     attrs[k] = _wrap_like(attrs[k], gen.gen_float(r))
         if dom == 'TIME' and 'maximum' in attrs and 'minimum' in attrs:
             a, b = _value_of(attrs['maximum']), _value_of(attrs['minimum'])
-            if isinstance(a, dict) != isinstance(b, dict):
-                attrs['minimum'] = _wrap_like(attrs['minimum'], gen.gen_dt(r) if isinstance(a, dict) else gen.gen_float(r))
+            if isinstance(a, (dict, str)) != isinstance(b, (dict, str)):
+                attrs['minimum'] = _wrap_like(attrs['minimum'], gen.gen_dt(r) if isinstance(a, (dict, str)) else gen.gen_float(r))
     elif t == 'axis':
         if 'coordinates' in attrs:
             v = as_list(_value_of(attrs['coordinates']))
@@ -260,7 +260,7 @@ def add_channel_with_data(c: Ctx, rows, tagn, index=False, dtypes=gen.DTYPES, fo
 
 def meta_spec(r: random.Random, avoid=None, n_objects=None, types=None, origin_pos=None, n_origins=None,
               mx=None, hc=False, later_p=0.3, lf_count=1) -> dict:
-    mx = mx or r.choice([128, 512, 8192, 8192, 16384])
+    mx = mx or r.choice([128, 512, 8192, 8192, 16384, 20, 32, 64])
     lfs = []
     for l in range(lf_count):
         hid = gen.name(r, f'HDR{l}', r.choice([4, 10, 64, 65]), hc=True)
